@@ -17,6 +17,7 @@ import (
 	"sort"
 	"strings"
 	"sync"
+	"time"
 
 	v1 "k8s.io/api/core/v1"
 	metav1 "k8s.io/apimachinery/pkg/apis/meta/v1"
@@ -50,6 +51,7 @@ type simSet struct {
 	Paused    bool
 	HistLimit int32
 	Gen       int64
+	NClaims   int
 	Status    struct {
 		ObsGen, Replicas, Ready, Current, Updated, Collisions int32
 		CurRev, UpdRev                                        string
@@ -80,7 +82,8 @@ func (w *World) loadSimInit(a Act) {
 	sc.Set = SetSpec{Name: simName, Replicas: s.Replicas, SlotsAnn: slotsAnn(s.Slots), Policy: s.Policy, Strat: s.Strat,
 		RuBlock: s.Strat == "RollingUpdate", PartPresent: s.Strat == "RollingUpdate", Part: s.Part, Tmpl: s.Tmpl, Paused: s.Paused,
 		HistLimit: s.HistLimit, Gen: s.Gen, ObsGen: int64(s.Status.ObsGen), StReplicas: s.Status.Replicas, StReady: s.Status.Ready,
-		StCurrent: s.Status.Current, StUpdated: s.Status.Updated, CurRev: s.Status.CurRev, UpdRev: s.Status.UpdRev, Collisions: s.Status.Collisions}
+		StCurrent: s.Status.Current, StUpdated: s.Status.Updated, CurRev: s.Status.CurRev, UpdRev: s.Status.UpdRev, Collisions: s.Status.Collisions,
+		NClaims: s.NClaims}
 	for _, r := range in.Revs {
 		owner := r.Owner
 		if owner == "other" {
@@ -137,13 +140,25 @@ func (w *World) apply(a Act) (ok bool, rec map[string]interface{}) {
 	switch a.name() {
 	case "Setup":
 		w.loadSimInit(a)
+		if w.queueMode { // the informer's initial list delivers the set as an add event
+			e.ssc.VerifQueue().Add(NS + "/" + simName)
+		}
 		return true, nil
 	case "Scramble":
 		pod, _ := a["pod"].(map[string]interface{})
+		set := e.apiSet(simName)
+		if cl, _ := a["claim"].(bool); cl {
+			// the claim of this ordinal exists already (left behind by an earlier incarnation of the pod)
+			for _, t := range set.Spec.VolumeClaimTemplates {
+				c := t.DeepCopy()
+				c.Name, c.Namespace = fmt.Sprintf("%s-%s-%d", t.Name, simName, o), NS
+				e.api.Put(RPVC, c)
+				e.pvcIdx.Add(e.api.Get(RPVC, c.Name).DeepCopyObject())
+			}
+		}
 		if present, _ := pod["present"].(bool); !present {
 			return true, nil
 		}
-		set := e.apiSet(simName)
 		ph, _ := pod["phase"].(string)
 		rev, _ := pod["rev"].(string)
 		owner, _ := pod["owner"].(string)
@@ -152,17 +167,28 @@ func (w *World) apply(a Act) (ok bool, rec map[string]interface{}) {
 		if owner == "other" {
 			owner = "builtin"
 		}
-		p := w.BuildPod(set, PodSpec{Ord: o, Phase: ph, Ready: ready, Term: term, Rev: rev, Owner: owner}, 0)
+		p := w.BuildPod(set, PodSpec{Ord: o, Phase: ph, Ready: ready, Term: term, Rev: rev, Owner: owner}, len(set.Spec.VolumeClaimTemplates))
 		e.api.Put(RPods, p)
 		e.podIdx.Add(e.apiPod(p.Name).DeepCopy())
 		return true, nil
 	case "Reconcile":
+		if w.queueMode && e.ssc.VerifQueue().Len() == 0 {
+			return false, nil // nothing has woken the controller
+		}
 		e.api.faults = faultsOf(a["faults"])
 		rec = w.Reconcile(simName)
 		e.api.faults = nil
 		if rec["res"] == "died" {
 			e.DrainQueue()
 			e.CacheSyncAll(false) // the restarted controller re-lists
+			if w.queueMode {
+				e.ssc.VerifQueue().Add(NS + "/" + simName)
+			}
+		} else if w.queueMode && rec["res"] != "ok" {
+			// the failed key comes back through the rate limiter; the step ends when it has arrived
+			if !e.WaitQueued(30 * time.Second) {
+				rec["retryLost"] = true
+			}
 		}
 		return true, rec
 	case "SyncSetCache":
@@ -171,7 +197,7 @@ func (w *World) apply(a Act) (ok bool, rec map[string]interface{}) {
 		if cs != nil && as != nil && cs.ResourceVersion == as.ResourceVersion {
 			return false, nil
 		}
-		e.CacheSync(RSet, false)
+		e.CacheSync(RSet, w.queueMode)
 		return true, nil
 	case "SyncPodCache":
 		before := len(e.podIdx.ListKeys())
@@ -187,7 +213,13 @@ func (w *World) apply(a Act) (ok bool, rec map[string]interface{}) {
 		if same {
 			return false, nil
 		}
-		e.CacheSync(RPods, false)
+		e.CacheSync(RPods, w.queueMode)
+		return true, nil
+	case "SyncPvcCache":
+		if len(e.pvcIdx.ListKeys()) == len(e.api.Names(RPVC)) { // claims are never updated or removed
+			return false, nil
+		}
+		e.CacheSync(RPVC, false)
 		return true, nil
 	case "PodRunning":
 		return e.PodRunning(w.podName(o)), nil
@@ -257,7 +289,7 @@ func (w *World) apply(a Act) (ok bool, rec map[string]interface{}) {
 		}), nil
 	case "EditTemplate":
 		t, _ := a["t"].(string)
-		return e.UserUpdate(simName, func(s *apps.StatefulSet) { s.Spec.Template = baseTemplate(simName, t, 0) }), nil
+		return e.UserUpdate(simName, func(s *apps.StatefulSet) { s.Spec.Template = baseTemplate(simName, t, len(s.Spec.VolumeClaimTemplates)) }), nil
 	case "SetPartition":
 		p := int32(a.num("p"))
 		return e.UserUpdate(simName, func(s *apps.StatefulSet) {
@@ -317,7 +349,20 @@ func (w *World) ClusterState() map[string]interface{} {
 		"cpods":  w.AbsPods(cs, w.cachedPods()),
 		"revs":   w.AbsRevs(as),
 		"rvSame": as != nil && cs != nil && as.ResourceVersion == cs.ResourceVersion,
+		"queued": w.queueMode && w.e.ssc.VerifQueue().Len() > 0,
+		"pvcs":   w.AbsApiPVCs(),
+		"cpvcs":  w.AbsPVCs(),
+		// the identity of every claim object: a claim that is deleted and re-created is a different claim
+		"pvcuids": w.pvcUIDs(),
 	}
+}
+
+func (w *World) pvcUIDs() [][]string {
+	out := [][]string{}
+	for _, n := range w.e.api.Names(RPVC) {
+		out = append(out, []string{n, string(meta(w.e.api.Get(RPVC, n)).GetUID())})
+	}
+	return out
 }
 
 func stateKey(st map[string]interface{}) string {
@@ -349,6 +394,11 @@ type simOut struct {
 // run replays the prefix and then the fair tail. strip: "faults" removes injected faults, "pause" removes Pause/Unpause.
 func (w *World) run(b *Behaviour, strip string, maxRounds int) *simOut {
 	out := &simOut{}
+	if w.queueMode {
+		// a controller (work queue, rate limiter) of its own for every behaviour: no retry of an earlier one can arrive here
+		w.e.ssc.VerifQueue().ShutDown()
+		w.e = NewEnv()
+	}
 	w.e.Reset()
 	for _, a := range b.Acts {
 		if strip == "faults" && a.name() == "Reconcile" {
@@ -361,6 +411,9 @@ func (w *World) run(b *Behaviour, strip string, maxRounds int) *simOut {
 		}
 		if strip == "pause" && (a.name() == "Pause" || a.name() == "Unpause") {
 			continue
+		}
+		if _, has := a["claim"]; a.name() == "Scramble" && !has {
+			a["claim"] = false
 		}
 		var ok bool
 		var rec map[string]interface{}
@@ -384,11 +437,21 @@ func (w *World) run(b *Behaviour, strip string, maxRounds int) *simOut {
 	w.gcAll() // the garbage collector finishes orphaning the dependents of a deleted built-in set
 	prev := ""
 	for r := 0; r < maxRounds; r++ {
-		w.e.CacheSyncAll(false)
-		rec := w.Reconcile(simName)
-		out.Recs = append(out.Recs, rec)
+		w.e.CacheSyncAll(w.queueMode)
+		var rec map[string]interface{}
+		if w.queueMode {
+			// no resync: the controller runs only if an event (or a retry) has put the key on the queue
+			if _, rec = w.apply(Act{"act": "Reconcile", "faults": []interface{}{}}); rec == nil {
+				rec = map[string]interface{}{"res": "ok", "calls": [][]interface{}{}, "idle": true}
+			} else {
+				out.Recs = append(out.Recs, rec)
+			}
+		} else {
+			rec = w.Reconcile(simName)
+			out.Recs = append(out.Recs, rec)
+		}
 		w.e.KubeletAll()
-		w.e.CacheSyncAll(false)
+		w.e.CacheSyncAll(w.queueMode)
 		st := w.ClusterState()
 		out.Tail = append(out.Tail, map[string]interface{}{"res": rec["res"], "writes": writesOf(rec), "state": st})
 		out.Rounds = r + 1
@@ -405,7 +468,7 @@ func (w *World) run(b *Behaviour, strip string, maxRounds int) *simOut {
 }
 
 // randomBehaviour: the seeded driver that needs no help from TLC: it samples actions whose guard holds in the real world.
-func (w *World) randomBehaviour(r *rand.Rand, maxOrd, depth int, id string, migration bool) *Behaviour {
+func (w *World) randomBehaviour(r *rand.Rand, maxOrd, depth int, id string, migration bool, claims int) *Behaviour {
 	b := &Behaviour{ID: id}
 	tm := []string{"t0", "t1", "t2"}
 	in := &simInit{}
@@ -427,6 +490,12 @@ func (w *World) randomBehaviour(r *rand.Rand, maxOrd, depth int, id string, migr
 	}
 	s.Tmpl = tm[r.Intn(3)]
 	s.HistLimit, s.Gen = int32(r.Intn(3)), 1
+	switch claims { // 0: never, 1: always, 2: half of the behaviours
+	case 1:
+		s.NClaims = 1
+	case 2:
+		s.NClaims = r.Intn(2)
+	}
 	nrev := r.Intn(3)
 	if migration {
 		nrev = 1 + r.Intn(2)
@@ -447,7 +516,7 @@ func (w *World) randomBehaviour(r *rand.Rand, maxOrd, depth int, id string, migr
 			s.Slots = []int{}
 		}
 		sb, _ := json.Marshal(map[string]interface{}{"replicas": s.Replicas, "slots": s.Slots, "policy": s.Policy, "strat": s.Strat, "part": s.Part,
-			"tmpl": s.Tmpl, "paused": false, "histLimit": s.HistLimit, "gen": 1,
+			"tmpl": s.Tmpl, "paused": false, "histLimit": s.HistLimit, "gen": 1, "nclaims": s.NClaims,
 			"status": map[string]interface{}{"obsGen": 0, "replicas": 0, "ready": 0, "current": 0, "updated": 0, "collisions": 0,
 				"curRev": s.Status.CurRev, "updRev": s.Status.UpdRev}})
 		var sm map[string]interface{}
@@ -478,14 +547,16 @@ func (w *World) randomBehaviour(r *rand.Rand, maxOrd, depth int, id string, migr
 				pod["phase"] = "Running" // the fairness premise of C02
 			}
 		}
-		b.Acts = append(b.Acts, Act{"act": "Scramble", "o": float64(o), "pod": pod})
+		present, _ := pod["present"].(bool)
+		b.Acts = append(b.Acts, Act{"act": "Scramble", "o": float64(o), "pod": pod, "claim": s.NClaims > 0 && (present || r.Intn(3) == 0)})
 	}
 	edits, faults, fails := 3, 2, 2
 	if migration {
 		edits = 0 // the property speaks about the reconciles after a migration, not about later edits
 	}
 	kinds := [][]interface{}{{"ServerError", false, false}, {"Conflict", false, false}, {"NotFound", false, false}, {"Timeout", true, false},
-		{"Timeout", false, false}, {"AlreadyExists", false, false}, {"Die", false, true}, {"Die", true, true}}
+		{"Timeout", false, false}, {"AlreadyExists", false, false}, {"Die", false, true}, {"Die", true, true},
+		{"Forbidden", false, false}, {"Invalid", false, false}}
 	for len(b.Acts) < depth {
 		o := float64(r.Intn(maxOrd + 1))
 		var a Act
@@ -505,6 +576,9 @@ func (w *World) randomBehaviour(r *rand.Rand, maxOrd, depth int, id string, migr
 			a = Act{"act": "SyncSetCache"}
 		case x < 10:
 			a = Act{"act": "SyncPodCache"}
+			if s.NClaims > 0 && r.Intn(3) == 0 {
+				a = Act{"act": "SyncPvcCache"}
+			}
 		case x < 12:
 			a = Act{"act": "PodRunning", "o": o}
 		case x < 14:
@@ -631,6 +705,8 @@ func cmdSim(args []string) {
 	workers := fs.Int("workers", 16, "")
 	rounds := fs.Int("rounds", 60, "bound of the fair tail")
 	twins := fs.Bool("twins", true, "also run the fault-free and the never-paused twin of every behaviour")
+	queue := fs.Bool("queue", false, "reconciles only through the controller's work queue; cache refreshes fire the event handlers")
+	claims := fs.Int("claims", 0, "random behaviours: 0 sets without claim templates, 1 with one, 2 mixed")
 	migration := fs.Bool("migration", false, "random behaviours start from a freshly migrated set (pods and revisions still owned by the built-in set)")
 	out := fs.String("out", "", "")
 	fs.Parse(args)
@@ -667,6 +743,7 @@ func cmdSim(args []string) {
 			defer wg.Done()
 			w := NewWorld()
 			w.warm(simName)
+			w.queueMode = *queue
 			bsh := newShard(*out, k)
 			defer bsh.close()
 			rf, _ := os.Create(filepath.Join(*out, fmt.Sprintf("recs-%02d.ndjson", k)))
@@ -678,7 +755,7 @@ func cmdSim(args []string) {
 				if i < len(behs) {
 					b = behs[i]
 				} else {
-					b = w.randomBehaviour(rnd, *maxOrd, *depth, fmt.Sprintf("rnd-%d-%d", *seed, i), *migration)
+					b = w.randomBehaviour(rnd, *maxOrd, *depth, fmt.Sprintf("rnd-%d-%d", *seed, i), *migration, *claims)
 					// drop user actions whose guard fails in the real world as the behaviour unfolds: done inside run via 'enabled'
 				}
 				o := w.runGuarded(b, "", *rounds, *maxOrd)
